@@ -10,6 +10,9 @@ def parseQuery (s : String) : Option Query :=
   | ["err", j] => (natOfChars j.toList).map fun j =>
       Query.ofList ((List.range j).map (fun i => Event.answer (i + 1)) ++ [.error 0])
   | ["inf"] => some fun i => .answer (i + 1)
+  -- a query made only of cuts: ONE answer that binds nothing and calls no predicate (the engine hands
+  -- the untouched nil environment to the continuation); answer number 0 = "X unbound"
+  | ["cut"] => some (Query.ofList [.answer 0])
   | _ => none
 
 def parseOp : Char → Option Op
@@ -27,7 +30,7 @@ def parseOps (s : String) : Option (List Op) :=
 def showRet : Ret → String
   | .bool b => "N:" ++ (if b then "true" else "false")
   | .ans none => "S:-"
-  | .ans (some a) => "S:" ++ toString a
+  | .ans (some a) => if a = 0 then "S:-" else "S:" ++ toString a
   | .err none => "E:-"
   | .err (some _) => "E:ball%20Aoops"
   | .closed false => "C:nil"
@@ -89,10 +92,25 @@ def seqJudge (q : Query) (ops : List Op) (impl : String) : String :=
 /-- the harness stops running cases once several calls have blocked (each costs a watchdog period) -/
 def skipped (impl : String) : Bool := impl.startsWith "SKIPPED"
 
+/-- the cut-only query runs no tick goal: its work counter is always 0 -/
+def zeroWork (s : String) : String :=
+  match s.splitOn "work=" with
+  | [a, b] => a ++ "work=0" ++ String.ofList (b.toList.dropWhile Char.isDigit)
+  | _ => s
+
 def seqHandler : Handler := fun payload impl =>
   let (qs, os) := splitBar payload
   match parseQuery qs, parseOps os with
-  | some q, some ops => (seqModel q ops, if skipped impl then "-" else seqJudge q ops impl)
+  | some q, some ops =>
+    if trim qs == "cut" then
+      -- judge with the work counter the specification would show for a one-answer query
+      let implAsFin := match impl.splitOn "work=0" with
+        | [a, b] =>
+          let st := (run q ops).1
+          a ++ s!"work={st.pos + (if st.finished then 1 else 0)}" ++ b
+        | _ => impl
+      (zeroWork (seqModel q ops), if skipped impl then "-" else seqJudge q ops implAsFin)
+    else (seqModel q ops, if skipped impl then "-" else seqJudge q ops impl)
   | _, _ => ("BAD-CASE", "FAIL unparsable case")
 
 /-! ### c12.inter: two Solutions, calls interleaved -/
